@@ -73,7 +73,8 @@ def install():
     tu._convolve_two_children = shadow_conv(tu._convolve_two_children)
 
     def dist_sig(d):
-        sig = sorted((oracle.state_key(oracle.abstract(k.tree)), round(float(v), 9)) for k, v in d._log_p.items())
+        # the candidates with their clone numbering, in the order the proposal holds them (a random draw indexes that order)
+        sig = [(oracle.state_key(oracle.abstract(k.tree)), tuple(sorted((i, repr(c)) for i, c in k.tree.labels.items())), round(float(v), 9)) for k, v in d._log_p.items()]
         extra = (getattr(d, "parent_is_empty_tree", None), round(float(getattr(d, "_cached_log_old_num_roots", 0.0) or 0.0), 12),
                  round(float(d.outlier_proposal_prob), 12))
         return sig, extra
@@ -111,7 +112,7 @@ def install():
         hit = cached_new.cache_info().hits > h0
         exp = raw_new(pp, dp, children, td, pd)
         _bump("cached new-clone tree " + ("hit" if hit else "miss"))
-        if oracle.abstract(got.tree) != oracle.abstract(exp.tree) or abs(got.log_p - exp.log_p) > 1e-9 or abs(got.log_p_one - exp.log_p_one) > 1e-9 or abs(got.log_pdf - exp.log_pdf) > 1e-9:
+        if oracle.abstract(got.tree) != oracle.abstract(exp.tree) or sorted((i, repr(c)) for i, c in got.tree.labels.items()) != sorted((i, repr(c)) for i, c in exp.tree.labels.items()) or abs(got.log_p - exp.log_p) > 1e-9 or abs(got.log_p_one - exp.log_p_one) > 1e-9 or abs(got.log_pdf - exp.log_pdf) > 1e-9:
             MISMATCH.append("cached new-clone tree differs from a freshly built one (data point %r, children %r, hit=%s)" % (dp.idx, sorted(children), hit))
         return got
 
